@@ -567,7 +567,13 @@ func main() {
 	skip := flag.String("skip", "frugal.go", "comma-separated file names to leave untouched")
 	mem := flag.String("mem", "", "comma-separated file names that get memory-access instrumentation")
 	sitesOut := flag.String("sites", "", "write the site table (one per line) to this file")
+	mode := flag.String("mode", "sched", "sched: scheduling points in one package; maporder: controlled map iteration in a module")
+	simenvPath := flag.String("simenv", "", "maporder: import path of the simenv package")
 	flag.Parse()
+	if *mode == "maporder" {
+		mapOrderMain(*dir, flag.Args(), *simenvPath)
+		return
+	}
 	if *dir == "" {
 		die("need -dir")
 	}
